@@ -245,6 +245,45 @@ Definition reload (c : catalog) : option catalog := reload_g create_ok (fun _ =>
 Definition storable (c : catalog) : bool := encodable (file_to_value (build_file c)).
 
 (* ------------------------------------------------------------------ *)
+(* Predicates of the theorems (executable, so examples are by computation). *)
+
+Fixpoint no_dot (s : string) : bool :=
+  match s with
+  | EmptyString => true
+  | String c t => negb (Ascii.eqb c dot) && no_dot t
+  end.
+
+(* no database name contains a dot.  Handle.Validate does NOT enforce this
+   (it only rejects empty names): the hypothesis of reload_identity that the
+   real code violates, see reload_identity_refuted *)
+Definition handles_ok (c : catalog) : bool :=
+  forallb (fun hc => no_dot (fst (fst hc))) c.
+
+Definition int64_ok (z : Z) : bool := (- two63 <=? z) && (z <? two63).
+
+Definition ix_ok (ni : string * index_cfg) : bool :=
+  no_nul (fst ni) && codec_ok (VDoc (ix_key (snd ni)))
+  && match ix_partial (snd ni) with None => true | Some p => codec_ok (VDoc p) end
+  && int64_ok (ix_expiry (snd ni)).
+
+Definition ns_ok (hc : handle * coll) : bool :=
+  no_nul (fst (fst hc)) && no_nul (snd (fst hc))
+  && forallb (fun d => codec_ok (VDoc d)) (c_docs (snd hc))
+  && forallb ix_ok (c_indexes (snd hc)).
+
+(* everything in the catalog is storable: names without NUL, documents, index
+   keys and partial filters made of storable values, expiry an int64 *)
+Definition catalog_ok (c : catalog) : bool := forallb ns_ok c.
+
+(* NewCatalog puts local.oplog into every catalog and nothing removes it *)
+Definition has_oplog (c : catalog) : bool :=
+  existsb (fun hc => handle_eqb (fst hc) oplog_handle) c.
+
+(* every stored index can be created and rebuilt over its collection *)
+Definition indexes_build (build_ok : index_cfg -> list doc -> bool) (c : catalog) : bool :=
+  forallb (fun hc => forallb (fun ni => build_ok (snd ni) (c_docs (snd hc))) (c_indexes (snd hc))) c.
+
+(* ------------------------------------------------------------------ *)
 (* S-expressions of catalogs and the runner.                            *)
 (*   (ns xDB xCOLL n|e (docs D…) (idx (xNAME D T|F N|D expiry) …))      *)
 
